@@ -44,6 +44,44 @@ CLAIMS = {
    note="str::parse::<f64> is an oracle input (observed bits); IEEE comparison modelled on bit patterns; bitmaps/maps modelled as "
         "sets. Trusted: Lean kernel, hand model validated by correspondence, harness.",
    design="§3 C11"),
+ "C01": dict(
+   engine="persist",
+   technique="Lean 4 proof (disk invariant preserved by every logical action of every operation => every kill point recovers) + kill-point correspondence against the real recover",
+   text="Theorem C01_kill_point: after ANY history (inserts, overwrites, deletes, metadata updates, manual/automatic snapshots, "
+        "rotation, segment compaction, restarts), killing the process after ANY prefix of the next operation's file-system actions "
+        "(start-up included) leaves a directory whose strict recovery succeeds and yields the acknowledged documents or those plus "
+        "the in-flight operation. C01_kill_point_batch_partial + C01_batch_not_atomic_witness: batch deletes recover to a prefix of "
+        "the batch (known finding). Tie: the harness logs every libc file-system effect of the real backend, materialises the "
+        "directory at every effect boundary and at torn prefixes of frame writes (~12k kill points per quick run), runs the real "
+        "strict recover on each and compares with the model's recovery of the corresponding action prefix; oracle = acked / "
+        "acked+in-flight. One genuine defect found and repaired (fix 89a0367).",
+   note="Proved for the process-kill model at logical-action granularity; torn-frame invisibility and atomic publication are "
+        "byte/OS-level facts validated by the enumeration. Power loss under fsync-always and the periodic-fsync clause are not "
+        "covered by the theorem (DESIGN.md). Trusted: Lean kernel, hand model validated by correspondence, FS shim.",
+   design="§3 C01"),
+ "C02": dict(
+   engine="persist",
+   technique="Lean 4 proof (engine/disk invariant by induction over histories; recover_of_DInv) + differential correspondence",
+   text="Theorems C02_restart_lossless, C02_history, C02_recover_eq_live: for every configuration and every history of any length "
+        "(incl. any number/placement of restarts) strict recovery of the data directory succeeds and yields exactly the live "
+        "documents, and the restarted engine satisfies the same invariant again. Tie: the same histories run through the real "
+        "HnswBackend (with persistence, under the FS shim) and the model; results, recognised action sequences, on-disk listings "
+        "(MANIFEST, segments with entry sequence numbers, snapshots) and censuses are compared op by op; oracle = census after "
+        "every restart equals the fold of acknowledged operations (vector bits compared as u32).",
+   note="Store abstracted to a document map + slot count (slot-level store is C11's model); normalisation/validator verdicts and "
+        "frame lengths are oracle inputs. Trusted: Lean kernel, hand model validated by correspondence, FS shim.",
+   design="§3 C02"),
+ "C03": dict(
+   engine="persist",
+   technique="Lean 4 proof (refusals happen before any action; ack implies recoverable) + correspondence with kill-point recovery + fault enumeration",
+   text="Theorems C03_refused_insert_noop, C03_refused_others_noop, C03_failed_write_changes_nothing (a write that returns "
+        "rejected/full/err issues no file-system action and leaves live and recovered documents unchanged, after any history), "
+        "C03_ack_implies_recoverable; the excluded path (index refusal after the log append) is kept as IndexRejectStatement with "
+        "a witness. Tie: histories with every invalid-input class; after every op the real strict recover runs on the "
+        "materialised directory. One genuine defect found and repaired (fix d09e19e).",
+   note="Input-refusal half proved; storage-fault half (ENOSPC/EIO/short writes/failed rollback) decided by fault enumeration "
+        "against the implementation, not by a theorem. Trusted: Lean kernel, hand model, FS shim.",
+   design="§3 C03"),
 }
 
 NOT_APPLICABLE = {
